@@ -3,6 +3,7 @@ package vat
 import (
 	"context"
 	"fmt"
+	"os"
 	"sort"
 	"strings"
 	"time"
@@ -15,7 +16,7 @@ import (
 
 // StepKinds is the vocabulary of histories.
 var StepKinds = []string{
-	"p-boot", "p-call", "p-pcall", "p-finish", "p-release", "p-return", "p-forward", "p-echo", "open",
+	"p-boot", "p-call", "p-pcall", "p-finish", "p-release", "p-return", "p-forward", "p-echo", "p-pause", "p-wait-impl", "p-sync", "open",
 	"a-boot", "a-call", "a-pcall", "a-getcap", "a-cancel", "a-release-client", "a-release-answer",
 }
 
@@ -27,6 +28,9 @@ func DecodeFlags(b int) uint64 {
 	if (b>>1)&7 == 7 {
 		f |= rpcsim.FlagErr
 	}
+	if b&1 != 0 && (b>>1)&3 == 2 {
+		f |= rpcsim.FlagLateAck // busy without acknowledging until the gate opens (at the latest at the next quiescent point)
+	}
 	switch (b >> 4) & 3 {
 	case 1, 3:
 		f |= rpcsim.CapNewObject << rpcsim.FlagCapShift
@@ -35,6 +39,9 @@ func DecodeFlags(b int) uint64 {
 	}
 	if (b>>6)&1 != 0 {
 		f |= rpcsim.FlagTwice
+		if (b>>1)&3 == 1 {
+			f = f&^rpcsim.FlagTwice | rpcsim.FlagSecond
+		}
 	}
 	return f
 }
@@ -183,6 +190,46 @@ func (e *engine) step(s Step) (bool, error) {
 			e.stats["pcalls-on-pending"]++
 		}
 		e.sendCall(q, rpcsim.Target{Answer: true, ID: dep.id, Transform: path}, s.C%8)
+	case "p-wait-impl":
+		// the peer waits until the implementations whose gates were opened have returned (the moment their answers'
+		// queues are replayed), without waiting for A's messages
+		t0 := time.Now()
+		for time.Since(t0) < 50*time.Millisecond {
+			done := true
+			ret := map[uint64]bool{}
+			for _, ev := range e.world.Log.Snapshot() {
+				if ev.Kind == "impl-return" || ev.Kind == "deliver-cancelled" {
+					ret[ev.Call] = true
+				}
+			}
+			for _, q := range e.allB {
+				if q.held() && q.opened && !q.returned && q.flags&rpcsim.FlagLateAck == 0 && !ret[q.serial] {
+					if _, ok := e.delivered[q.serial]; ok || q.dest >= 0 {
+						done = false
+					}
+				}
+			}
+			if done {
+				break
+			}
+			time.Sleep(50 * time.Microsecond)
+		}
+		time.Sleep(200 * time.Microsecond)
+	case "p-sync":
+		// the peer waits until A's receive loop has handled everything sent so far (marker echo), nothing more.
+		// Not while the receive loop may legitimately be held up (an object that has not acknowledged a delivery, an
+		// answer whose queue is being replayed): the echo would not come before the harness acts again.
+		for _, q := range e.allB {
+			if q.kind != "boot" && !q.returned && (q.flags&rpcsim.FlagLateAck != 0 && !q.opened || q.held() && q.opened) {
+				return false, nil
+			}
+		}
+		if err := e.barrier(); err != nil {
+			return true, err
+		}
+	case "p-pause":
+		// the peer is silent for a moment (lets goroutines inside A run; meaningful in burst mode)
+		time.Sleep(time.Duration(500+500*(s.A%4)) * time.Microsecond)
 	case "p-finish":
 		cands := e.liveBqs(func(q *bq) bool { return !q.finished })
 		if len(cands) == 0 {
@@ -474,6 +521,9 @@ func (e *engine) newAppCall(c int) *appCall {
 	if c&14 == 14 {
 		ac.flags |= rpcsim.FlagErr
 	}
+	if c&1 != 0 && (c>>4)&3 == 3 {
+		ac.flags |= rpcsim.FlagLateAck // (only matters for calls that land on an object inside A)
+	}
 	e.calls = append(e.calls, ac)
 	e.appSer[ac.serial] = ac
 	return ac
@@ -521,6 +571,15 @@ func (e *engine) issue(ac *appCall, param int, do func(context.Context, capnp.Se
 			}
 			return nil
 		}}
+	if ac.localObj >= 0 && ac.flags&rpcsim.FlagLateAck != 0 && ac.flags&rpcsim.FlagHold != 0 && (ac.localEmb == nil || ac.localEmb.echoed) {
+		// the object does not acknowledge the delivery until its gate opens: Send stays inside the server meanwhile
+		ac.pending = make(chan struct{})
+		e.blocked = ac
+		e.stats["app-thread-blocked-by-late-ack"]++
+		go func() { defer close(ac.pending); ac.ans, ac.rel = do(ctx, send) }()
+		time.Sleep(300 * time.Microsecond) // let the call reach the object
+		return nil
+	}
 	if ac.localObj >= 0 && ac.localEmb != nil && !ac.localEmb.echoed {
 		// Send on an embargoed capability blocks until the disembargo arrives: the application thread is stuck in it
 		ac.pending = make(chan struct{})
@@ -749,7 +808,8 @@ func Run(c Case, opt Options) (res pbt.Result, err error) {
 			continue
 		}
 		executed++
-		if c.Burst && peerStep(s.K) {
+		if c.Burst && (peerStep(s.K) || e.blocked != nil && e.blocked.flags&rpcsim.FlagLateAck != 0 && !e.openedSer[e.blocked.serial]) {
+			// (an application call on an object that does not acknowledge it yet: the peer goes on meanwhile)
 			e.stats["unsettled-steps"]++
 			dirty = true
 			continue
@@ -770,6 +830,12 @@ func Run(c Case, opt Options) (res pbt.Result, err error) {
 	}
 	if err := e.closeAndCheck(); err != nil {
 		return res, err
+	}
+	if os.Getenv("VERIF_TRACE") != "" {
+		fmt.Println(strings.Join(e.log, "\n"))
+		for _, ev := range e.world.Log.Snapshot() {
+			fmt.Printf("  world: %s obj=%d call=%d\n", ev.Kind, ev.Hook, ev.Call)
+		}
 	}
 	for k, v := range e.stats {
 		res.Count(k, int64(v))
